@@ -257,7 +257,12 @@ def match_known(entries: list[dict], bucket: dict) -> Optional[dict]:
         if e.get("status") != "open":
             continue
         m = e.get("match", {})
-        if m.get("kind") != bucket["kind"]:
+        if "kind_re" in m:
+            if not re.fullmatch(m["kind_re"], bucket["kind"]):
+                continue
+        elif m.get("kind") != bucket["kind"]:
+            continue
+        if any(x not in bucket["discr"] for x in m.get("discr_contains", [])):
             continue
         pats = m.get("discr", [])
         if len(pats) > len(bucket["discr"]):
